@@ -208,14 +208,14 @@ func formatEventsParseError(path string, lineNo int, line []byte, cause error) e
 }
 
 func appendEvents(path string, events []Event) error {
-	file, err := os.OpenFile(path, os.O_APPEND|os.O_CREATE|os.O_RDWR, 0644)
+	if err := repairTornTail(path); err != nil {
+		return err
+	}
+	file, err := os.OpenFile(path, os.O_APPEND|os.O_CREATE|os.O_WRONLY, 0644)
 	if err != nil {
 		return err
 	}
 	defer file.Close()
-	if err := repairTornTail(file); err != nil {
-		return err
-	}
 	// One buffer, one write: a multi-event command lands whole or not at all.
 	var buf []byte
 	for _, event := range events {
@@ -232,8 +232,19 @@ func appendEvents(path string, events []Event) error {
 // repairTornTail makes the log end in '\n' before new events are appended.
 // A final line without a newline is what a crash or partial write leaves behind;
 // readEvents keeps it when it parses and drops it otherwise, so do the same here
-// instead of gluing the next event onto it.
-func repairTornTail(file *os.File) error {
+// instead of gluing the next event onto it. A fragment that does not parse is
+// dropped by replacing the file (temp file + rename), never by truncating in
+// place: a reader that has the log open must keep seeing a complete old file,
+// not a splice of the fragment and the next event.
+func repairTornTail(path string) error {
+	file, err := os.OpenFile(path, os.O_APPEND|os.O_RDWR, 0644)
+	if err != nil {
+		if errors.Is(err, os.ErrNotExist) {
+			return nil
+		}
+		return err
+	}
+	defer file.Close()
 	info, err := file.Stat()
 	if err != nil {
 		return err
@@ -270,7 +281,26 @@ func repairTornTail(file *os.File) error {
 	if len(trimmed) == 0 || json.Unmarshal(trimmed, &event) == nil {
 		return writeAll(file, []byte{'\n'})
 	}
-	return file.Truncate(lineStart)
+	tmpPath := path + ".tmp"
+	tmp, err := os.OpenFile(tmpPath, os.O_CREATE|os.O_WRONLY|os.O_TRUNC, 0644)
+	if err != nil {
+		return err
+	}
+	if _, err := io.Copy(tmp, io.NewSectionReader(file, 0, lineStart)); err != nil {
+		tmp.Close()
+		return err
+	}
+	if err := tmp.Sync(); err != nil {
+		tmp.Close()
+		return err
+	}
+	if err := tmp.Close(); err != nil {
+		return err
+	}
+	if err := os.Rename(tmpPath, path); err != nil {
+		return err
+	}
+	return syncDir(filepath.Dir(path))
 }
 
 func writeEventsFile(path string, events []Event) error {
